@@ -1,13 +1,16 @@
 import Umya.Driver.C17
 import Umya.Driver.C10
+import Umya.Driver.C07
 
 structure DState where
   c10 : Umya.Driver.C10.St := {}
+  c07 : Umya.Driver.C07.St := {}
 
 def dispatch (st : DState) (line : String) : DState × String :=
   match line.trimAscii.toString.splitOn " " with
   | "c17" :: args => (st, Umya.Driver.C17.handle args)
   | "c10" :: args => let (s, r) := Umya.Driver.C10.handle st.c10 args; ({ st with c10 := s }, r)
+  | "c07" :: args => let (s, r) := Umya.Driver.C07.handle st.c07 args; ({ st with c07 := s }, r)
   | _ => (st, "bad-op")
 
 partial def loop (hin : IO.FS.Stream) (hout : IO.FS.Stream) (st : DState) : IO Unit := do
